@@ -65,7 +65,8 @@ class CorrelationAnalyzer(BaseAnalyzer):
         xcorr = np.zeros((tseries_length,
                           tseries_length,
                           t_points * 2 - 1))
-        data = self.input.data
+        # correlate in floating point: integer data would overflow in its own dtype
+        data = np.asarray(self.input.data, dtype=float)
         for i in range(tseries_length):
             data_i = data[i]
             for j in range(i, tseries_length):
@@ -100,7 +101,8 @@ class CorrelationAnalyzer(BaseAnalyzer):
         xcorr = np.zeros((tseries_length,
                           tseries_length,
                           t_points * 2 - 1))
-        data = self.input.data
+        # correlate in floating point: integer data would overflow in its own dtype
+        data = np.asarray(self.input.data, dtype=float)
         for i in range(tseries_length):
             data_i = data[i]
             for j in range(i, tseries_length):
